@@ -1,6 +1,7 @@
 // Contracts for fastpasta/src/analyze/validators/its/alpide/alpide_readout_frame.rs
 // (the ML/OL lane-count rule of check_frame_lanes_valid is proved in the Verus unit v_frame; a Kani harness over
-// Vec<LaneDataFrame> with up to 15 lanes timed out)
+// Vec<LaneDataFrame> with up to 15 lanes timed out). The inner-barrel grouping harnesses replace `<[u8]>::sort_unstable`
+// (pdqsort: > 12 GB in CBMC) by an insertion sort with the same contract.
 #![allow(dead_code, unused_results, clippy::all)]
 use super::*;
 use crate::verif_support::*;
@@ -18,10 +19,11 @@ fn frame_with(layer: Layer, n: usize, ids: &[u8; 16]) -> AlpideReadoutFrame {
     f
 }
 
-// @harness id=bnd_frame_lanes_ib props=C13,C04 kind=bnd tier=manual bound=lanes<=4,fatal<=1 fns=AlpideReadoutFrame::check_frame_lanes_valid,validate_inner_lane_groupings stubs=alloc::fmt::format
+// @harness id=bnd_frame_lanes_ib props=C13,C01,C02,C04 kind=bnd tier=quick bound=lanes<=4,fatal<=1 fns=AlpideReadoutFrame::check_frame_lanes_valid,validate_inner_lane_groupings stubs=alloc::fmt::format,slice::sort_unstable
 // Inner barrel: 3 lanes forming one of the fixed groups {0,1,2},{3,4,5},{6,7,8} (minus a fatal lane).
 #[kani::proof]
 #[kani::stub(alloc::fmt::format, stub_format_nonempty)]
+#[kani::stub(<[u8]>::sort_unstable, stub_sort_unstable)]
 #[kani::unwind(6)]
 fn bnd_frame_lanes_ib() {
     let n: usize = kani::any();
@@ -48,15 +50,16 @@ fn bnd_frame_lanes_ib() {
         let (a, b) = if fl == g { (g + 1, g + 2) } else if fl == g + 1 { (g, g + 2) } else { (g, g + 1) };
         n == 2 && lane(0) == a && lane(1) == b
     };
-    assert!(r.is_ok() == ok, "[C13] IB frames carry 3 lanes forming one of the fixed groups, fewer only by fatal lanes");
+    assert!(r.is_ok() == ok, "[C13][C01][C02] IB frames carry 3 lanes forming one of the fixed groups, fewer only by fatal lanes");
     kani::cover!(r.is_ok() && has_fatal);
     kani::cover!(r.is_ok() && !has_fatal);
 }
 
-// @harness id=bnd_groupings_nopanic props=C04 kind=bnd tier=manual bound=lanes=0,fatal=1 fns=validate_inner_lane_groupings stubs=alloc::fmt::format
+// @harness id=bnd_groupings_nopanic props=C04,C13 kind=bnd tier=quick bound=lanes=0,fatal=1 fns=validate_inner_lane_groupings stubs=alloc::fmt::format,slice::sort_unstable
 // No precondition on the fatal lane number: it is the 5 LSB of a (possibly corrupted) data word id, 0..=31.
 #[kani::proof]
 #[kani::stub(alloc::fmt::format, stub_format_nonempty)]
+#[kani::stub(<[u8]>::sort_unstable, stub_sort_unstable)]
 #[kani::unwind(6)]
 fn bnd_groupings_nopanic() {
     // (no lane data at all: the crash site is the handling of the fatal lane list itself)
@@ -65,4 +68,67 @@ fn bnd_groupings_nopanic() {
     kani::assume(fl < 32);
     let fatal = [fl];
     let _ = validate_inner_lane_groupings(&frames[..], Some(&fatal[..]));
+}
+
+/// simple equivalents of two std routines whose real bodies (pdqsort; retain's two-phase guard loops) exhaust CBMC
+fn stub_sort_unstable<T: Ord>(s: &mut [T]) {
+    let n = s.len();
+    let mut i = 1;
+    while i < n {
+        let mut j = i;
+        while j > 0 && s[j - 1] > s[j] {
+            s.swap(j - 1, j);
+            j -= 1;
+        }
+        i += 1;
+    }
+}
+fn stub_retain<T, A: std::alloc::Allocator, F: FnMut(&T) -> bool>(v: &mut Vec<T, A>, mut f: F) {
+    let mut i = 0;
+    while i < v.len() {
+        if f(&v[i]) {
+            i += 1;
+        } else {
+            v.remove(i);
+        }
+    }
+}
+
+// @harness id=bnd_groupings_fatal props=C13,C01,C02,C04 kind=bnd tier=quick bound=lanes<=3,fatal<=1 fns=validate_inner_lane_groupings stubs=alloc::fmt::format,slice::sort_unstable
+// Inner-barrel grouping with at most one known-fatal lane: the lanes present must be exactly one of the fixed
+// groups {0,1,2},{3,4,5},{6,7,8} with the fatal lane (any of 0..=8) removed from its group.
+#[kani::proof]
+#[kani::stub(alloc::fmt::format, stub_format_nonempty)]
+#[kani::stub(<[u8]>::sort_unstable, stub_sort_unstable)]
+// (Vec::retain cannot be stubbed: Kani rejects the generic stub with a spurious type mismatch)
+#[kani::unwind(6)]
+fn bnd_groupings_fatal() {
+    let n: usize = kani::any();
+    kani::assume(n >= 2 && n <= 3);
+    let lanes: [u8; 3] = kani::any();
+    kani::assume(lanes[0] <= 8 && lanes[1] <= 8 && lanes[2] <= 8);
+    kani::assume(lanes[0] < lanes[1] && (n < 3 || lanes[1] < lanes[2]));
+    let frames = [
+        LaneDataFrame::new(0x20 + lanes[0], Vec::new()),
+        LaneDataFrame::new(0x20 + lanes[1], Vec::new()),
+        LaneDataFrame::new(0x20 + lanes[2], Vec::new()),
+    ];
+    let fl: u8 = kani::any();
+    kani::assume(fl < 32);
+    let has_fatal: bool = kani::any();
+    let fatal = [fl];
+    let r = validate_inner_lane_groupings(&frames[..n], if has_fatal { Some(&fatal[..]) } else { None });
+    let g = (lanes[0] / 3) * 3;
+    let full = n == 3 && lanes[0] == g && lanes[1] == g + 1 && lanes[2] == g + 2;
+    let ok = if !has_fatal || fl > 8 {
+        full
+    } else {
+        // a group of three is still valid if the fatal lane is in another group; the fatal lane's group is valid without it
+        let fg = (fl / 3) * 3;
+        let (a, b) = if fl == fg { (fg + 1, fg + 2) } else if fl == fg + 1 { (fg, fg + 2) } else { (fg, fg + 1) };
+        (full && g != fg) || (n == 2 && lanes[0] == a && lanes[1] == b)
+    };
+    assert!(r.is_ok() == ok, "[C13][C01][C02] IB lanes form one of the fixed groups; a group may lack exactly its known-fatal lane");
+    kani::cover!(r.is_ok() && has_fatal && n == 2 && fl == 8);
+    core::mem::forget(frames);
 }
